@@ -170,6 +170,20 @@ func TestC29(t *testing.T) {
 	// a CBOR nesting limit of 32. Entry points are therefore executed WITHOUT atree validation (the
 	// production configuration); failures of that debug pass are out of this property's scope.
 	fc14 := false
+	fc17 := rec.Known("FC17")
+	if fc17 {
+		rec.ReportKnown("FC17", fc17StillFails())
+	}
+	fc18 := rec.Known("FC18")
+	if fc18 {
+		res := runEntryPoint(base, true, `access(all) fun main(x: [AnyStruct?]): AnyStruct { return x }`, []byte(`{"type":"Array","value":[{"type":"Bool","value":false}]}`), host.Interp)
+		still := false
+		if arr, ok := res.value.(cadence.Array); ok && len(arr.Values) == 1 {
+			_, boxed := arr.Values[0].(cadence.Optional)
+			still = !boxed
+		}
+		rec.ReportKnown("FC18", still)
+	}
 	fc15 := rec.Known("FC15")
 	if fc15 {
 		s := `{"value":{"id":"A.0000000000000001.C.S","fields":[{"value":{"value":"1","type":"Int"},"name":"n"},{"value":{"value":"x","type":"String"},"name":"s"}]},"type":"Struct"}`
@@ -225,8 +239,14 @@ func TestC29(t *testing.T) {
 			}
 			enc = e.bytes
 			if g.S.Intn(8) == 0 {
-				enc, _ = mutateJSON(g, enc)
-				class, expectConforms = "json-mutant", false
+				// (mutants nested thousands of levels deep are C41's business; importing them takes
+				// seconds per run and would dominate this check)
+				if m, _ := mutateJSON(g, enc); len(m) <= 16<<10 {
+					enc = m
+					class, expectConforms = "json-mutant", false
+				} else {
+					rec.Class("skipped/huge-json-mutant")
+				}
 			}
 		}
 		in := vgen.Inspect(arg)
@@ -331,6 +351,13 @@ func TestC29(t *testing.T) {
 						rec.Class("observation/enum-raw-value-without-case-accepted")
 						s = ""
 					}
+					if fc18 && strings.HasSuffix(s, "is not an optional") && (strings.HasPrefix(s, "[") || strings.HasPrefix(s, "value of") || strings.HasPrefix(s, ".")) {
+						// FC18: a container element that should be boxed in an optional is not (the export,
+						// and with it the CCF round trip of the returned value, is affected)
+						rec.Excluded("FC18")
+						rec.Class("outcome/accepted")
+						continue
+					}
 					if s != "" {
 						rt.Fatalf("C29 %s: the argument was accepted but the value the script received does not conform to %s: %s\nreceived: %s\ncase: %+v",
 							who, pt.Syntax(), s, vgen.Show(seen), cs)
@@ -342,7 +369,9 @@ func TestC29(t *testing.T) {
 							rt.Fatalf("C29 %s: the returned value does not round-trip through JSON-CDC: %s", who, msg)
 						}
 					}
-					if !rin.Kinds["Function"] && !rin.InlineFunctionType && !hasDuplicateParameterLabels(res.value) && !ccfOptionalAmbiguity(res.value, res.value.Type()) {
+					if fc17 && ccfCovariantContainer(res.value, res.value.Type()) {
+						rec.Excluded("FC17")
+					} else if !rin.Kinds["Function"] && !rin.InlineFunctionType && !hasDuplicateParameterLabels(res.value) && !ccfOptionalAmbiguity(res.value, res.value.Type()) {
 						if _, msg := ccfRoundTrip("default", ccfDefaultEnc, ccfDefaultDec, res.value, vgen.CCFErasure{}); msg != "" {
 							rt.Fatalf("C29 %s: the returned value does not round-trip through CCF: %s", who, msg)
 						}
